@@ -154,6 +154,8 @@ impl Scheduler {
 
         let processor_id = self.inner.hardware.current_processor_id();
 
+        #[cfg(folo_verif)]
+        crate::__verif::point("spawn/enter");
         // Ensure workers are spawned for this processor (lazy initialization).
         self.inner.ensure_workers_spawned(processor_id);
 
@@ -194,6 +196,8 @@ impl Scheduler {
             );
         }
 
+        #[cfg(folo_verif)]
+        crate::__verif::point("spawn/after-push");
         // Record the spawn for metrics.
         state.record_task_spawned();
 
@@ -215,6 +219,8 @@ impl Scheduler {
 
         let processor_id = self.inner.hardware.current_processor_id();
 
+        #[cfg(folo_verif)]
+        crate::__verif::point("spawn/enter");
         // Ensure workers are spawned for this processor (lazy initialization).
         self.inner.ensure_workers_spawned(processor_id);
 
@@ -252,6 +258,8 @@ impl Scheduler {
             );
         }
 
+        #[cfg(folo_verif)]
+        crate::__verif::point("spawn/after-push");
         // Record the spawn for metrics.
         state.record_task_spawned();
 
